@@ -242,7 +242,8 @@ class _FakeTime(object):
     def time(self):
         # (the provider reads the clock in every turn of its loop: counting it guarantees that a loop which neither
         #  polls the socket nor its user queue any more still runs into the budget / livelock detection)
-        self._sim.point('clock')
+        if not self._sim._probing:
+            self._sim.point('clock')
         return self._sim.now
 
     # (an interval measured on the monotonic clock is the same interval)
@@ -335,6 +336,8 @@ class Sim(object):
         self.stopped_at = None
         self._last_log, self._stale = -1, 0
         self._spin = 0
+        self._probing = False
+        self._final_timer = None
         self.stall_write = stall_write        # index of the write during which the peer pauses reading
         self.stall_seconds = stall_seconds
         self.write_fault = write_fault    # index of the first write on the transport that fails (None: never)
@@ -432,7 +435,7 @@ class Sim(object):
         p = self.provider
         self.snaps.append({
             'at': len(self.log), 'next': self.next, 'state': self.state(),
-            'artim': p.timer.sim_started is not None, 'artim_start': p.timer.sim_started,
+            'artim': self.timer_started() is not None, 'artim_start': self.timer_started(),
             'closed': self.sock.closed, 'sock_none': p.dul_socket is None, 'now': self.now,
             'pending_events': len(p.event)})
 
@@ -562,8 +565,7 @@ class Sim(object):
                     setattr(mod, name, new)
         # ... and through class attributes bound at import (`_clock = staticmethod(time.monotonic)`)
         for mod in (dulprovider, fsm):
-            for cls in [c for c in [getattr(c_, 'sim_base', c_) for c_ in vars(mod).values() if isinstance(c_, type)]
-                        if getattr(c, '__module__', None) == mod.__name__]:
+            for cls in [c for c in vars(mod).values() if isinstance(c, type) and getattr(c, '__module__', None) == mod.__name__]:
                 for name, raw in list(vars(cls).items()):
                     target = raw.__func__ if isinstance(raw, (staticmethod, classmethod)) else raw
                     own = None
@@ -576,43 +578,23 @@ class Sim(object):
                         saved.append((cls, name, raw))
                         setattr(cls, name, staticmethod(own))
         timer_cls = getattr(dulprovider, 'Timer', None)
-        timer_cls = getattr(timer_cls, 'sim_base', timer_cls)
         if not isinstance(timer_cls, type) or not all(callable(getattr(timer_cls, m, None)) for m in ('start', 'stop', 'restart', 'check')):
-            for mod, name, val in saved:
-                setattr(mod, name, val)
+            for owner, name, val in reversed(saved):
+                setattr(owner, name, val)
             raise HarnessError('dulprovider.Timer with start/stop/restart/check is not there: the simulation does not fit this tree')
-        sim = self
-
-        class SimTimer(timer_cls):
-            sim_started = None
-            sim_base = timer_cls
-
-            def start(self):
-                self.sim_started = sim.now
-                return timer_cls.start(self)
-
-            def stop(self):
-                self.sim_started = None
-                return timer_cls.stop(self)
-
-            def restart(self):
-                res = timer_cls.restart(self)
-                self.sim_started = sim.now
-                return res
-        saved.append((dulprovider, 'Timer', dulprovider.Timer))
-        dulprovider.Timer = SimTimer
         # is the clock the timer reads really the simulated one?  (a tree may reach the real clock by a route that is
         # not intercepted - a default argument, a closure: then simulated time means nothing and no verdict is possible)
-        probe, before, points = SimTimer(10), self.now, self.points
+        probe, before = timer_cls(10), self.now
+        self._probing = True
         try:
             probe.start()
             fresh = probe.check()
             self.now = before + 11.0
             expired = probe.check()
         finally:
-            self.now, self.points, self._spin = before, points, 0
+            self.now, self._probing = before, False
         if fresh is False or expired is not False:
-            for owner, name, val in saved:
+            for owner, name, val in reversed(saved):
                 setattr(owner, name, val)
             raise HarnessError('the ARTIM timer of this tree does not run on the simulated clock (check() gave %r at once, '
                                '%r after 11 simulated seconds): the simulation does not fit this tree' % (fresh, expired))
@@ -654,15 +636,45 @@ class Sim(object):
                     raise HarnessError('the simulation does not fit this tree: %r' % (exc,))
                 self.outcome = ('exception', exc)
             self.snapshot()
+            self._final_timer = self.timer_started()       # (while the simulated clock is still in place)
         return self
 
     # -- views -----------------------------------------------------------------------------
     def wire(self):
         return b''.join(e[1] for e in self.log if e[0] == 'send')
 
+    ARTIM = 10.0
+
+    def timer_started(self):
+        """When was the provider's ARTIM timer started (None: it is not running)?  Found out through the timer's public
+        check() alone: with the simulated clock moved far ahead a running timer has expired, a stopped one never does;
+        the instant at which check() flips is start + ARTIM (bisection on the simulated clock, which is put back)."""
+        t = self.provider.timer
+        before = self.now
+        self._probing = True
+        try:
+            self.now = before + 1e7
+            if t.check() is not False:
+                return None
+            lo, hi = before - 1e4, before + 1e7          # check() is True at lo (not yet expired), False at hi
+            self.now = lo
+            if t.check() is False:
+                return lo - self.ARTIM                   # (started very long ago)
+            for _ in range(60):
+                mid = (lo + hi) / 2.0
+                self.now = mid
+                if t.check() is False:
+                    hi = mid
+                else:
+                    lo = mid
+                if hi - lo < 1e-7:
+                    break
+            return round(hi - self.ARTIM, 4)
+        finally:
+            self.now, self._probing = before, False
+
     def artim_running(self):
-        p = self.provider
-        return p is not None and p.timer.sim_started is not None
+        return self.provider is not None and self.timer_started() is not None
 
     def _stop_request_completes(self):
         """kill() - the public 'stop and wait until the loop has ended' - returns (the loop HAS ended)."""
@@ -689,7 +701,7 @@ class Sim(object):
         p = self.provider
         return {'state': self.state(), 'closed': self.sock.closed or
                 (self.role == 'requestor' and self.sock.connected_to is None),
-                'sock_none': p.dul_socket is None, 'artim': p.timer.sim_started is not None,
+                'sock_none': p.dul_socket is None, 'artim': self._final_timer is not None,
                 'loop_exited_flag': self._stop_request_completes(), 'outcome': self.outcome[0]}
 
 
